@@ -14,7 +14,7 @@ use scylla::cluster::ClusterState;
 use scylla::cluster::metadata::Strategy;
 use scylla::verif_hooks::cluster::{
     KeyspaceSpec, NodeSpec, cluster_from_topology, cluster_refresh, cluster_refresh_accepting, cluster_refresh_topology,
-    cluster_refresh_topology_accepting,
+    cluster_refresh_topology_accepting, set_sharders,
 };
 use std::collections::HashMap;
 use uuid::Uuid;
@@ -243,6 +243,36 @@ pub fn refresh_cluster_accepting(
 pub fn refresh_cluster_topology_accepting(previous: &ClusterState, prev_peers: &[PeerSpec], peers: &[PeerSpec]) -> ClusterState {
     reimpose(previous, prev_peers);
     RT.with(|rt| rt.block_on(cluster_refresh_topology_accepting(previous, &node_specs(peers))))
+}
+
+/// Marks every node object of `state` (gives it a verification sharder).  `inherit_with_ip_changed` copies the
+/// marker to the object it creates, `Node::new` / `Node::new_disabled` do not: after a refresh a marked node that
+/// is not the previous `Arc` itself was inherited.  Call before refreshing from `state`.
+pub fn mark_nodes(state: &ClusterState) {
+    let m: HashMap<uuid::Uuid, (u16, u8)> = state.get_nodes_info().iter().map(|n| (n.host_id, (4u16, 12u8))).collect();
+    set_sharders(state, &m);
+}
+
+/// Per peer of the new metadata, which arm of `calculate_new_topology`'s reuse match produced its node object:
+/// `c` = the previous `Arc<Node>` itself, `i` = a new object inheriting the previous one (address changed),
+/// `n` = a new node.  `previous` must have been marked (`mark_nodes`) before the refresh.
+pub fn reuse_arms(previous: Option<&ClusterState>, state: &ClusterState, peers: &[PeerSpec]) -> String {
+    if peers.is_empty() {
+        return "-".into();
+    }
+    peers
+        .iter()
+        .map(|p| {
+            let new = state.get_node_by_host_id(host_id(p.id));
+            let old = previous.and_then(|s| s.get_node_by_host_id(host_id(p.id)));
+            match (old, new) {
+                (Some(o), Some(n)) if std::sync::Arc::ptr_eq(o, n) => 'c',
+                (Some(_), Some(n)) if n.sharder().is_some() => 'i',
+                (_, Some(_)) => 'n',
+                (_, None) => '?',
+            }
+        })
+        .collect()
 }
 
 /// Shape of a generated topology.
